@@ -801,3 +801,13 @@ package gorm
 //@   in gorm.(*DB).Save
 //@   min-sites 1
 //@   assert key-part-of-the-saved-value: arg1 == reflectValue [C16]
+
+//@ # ---------- C18/C04: a nested block is set up and undone on the caller's handle ----------
+//@ # SAVEPOINT and ROLLBACK TO SAVEPOINT of a nested Transaction carry the same context (and run on the same
+//@ # connection) as the statements of the block: they are issued through the receiver itself.
+//@ site nested-block-savepoints-on-the-callers-handle
+//@   match call gorm.(*DB).SavePoint | call gorm.(*DB).RollbackTo
+//@   in gorm.(*DB).Transaction gorm.(*DB).Transaction$1
+//@   min-sites 2
+//@   assert same-context: arg0.Statement.Context == db.Statement.Context [C18]
+//@   assert same-connection: arg0.Statement.ConnPool == db.Statement.ConnPool [C04,C18]
